@@ -78,10 +78,10 @@ Definition k3_mech_node (l : string) (n : expr) : bool :=
   | EBin _ _ (Some vm) _ _ => (vm_on vm && mem_str l (vm_labels vm)) || mem_str l (vm_include vm)
   | ECall f _ args =>
       ((String.eqb f "label_replace" || String.eqb f "label_join") &&
-       match nth_error args 1 with Some (EStr d) => String.eqb d l | _ => false end)
+       match lit_of (nth_error args 1) with Some d => String.eqb d l | None => false end)
       || (if mem_str f ["vector"; "scalar"; "absent"; "absent_over_time"; "label_replace"; "label_join"; "sort"; "sort_desc"; "time"; "pi"]
           then false else pos_matcher l n)
-  | EAgg ACountValues _ _ (Some (EStr d)) _ => String.eqb d l
+  | EAgg ACountValues _ _ p _ => match lit_of p with Some d => String.eqb d l | None => false end
   | _ => false
   end.
 
